@@ -8,6 +8,9 @@ C01.dbl    double-byte token arithmetic is inverse
 C01.pack   nibble / hex packing tables are inverse; packed header bit layout agrees
 C01.unpack packed body: writer nibble placement and filler; reader abstractly executed for every (kind, header byte)
 C01.count  the list header of a node counts exactly the items that are written (same condition for counting and writing)
+C01.str    strings are one byte per character on both sides (ord / chr / latin-1; no other charset)
+C01.node   ProtocolTreeNode.__init__ keeps attributes (also falsy values), children and data unchanged (abstract execution)
+C01.layer  YowCoderLayer.send writes protocolTreeNodeToBytes(<its argument>) on every path
 C01.dict   dictionary sizes stay below the control bytes
 C01.eq     ProtocolTreeNode.__eq__ compares every component and matches children in both directions
 """
@@ -1194,6 +1197,118 @@ def rule_count(ctx):
             ctx.violate("C01.count", w, st, "an item is written under %s but never counted in the list header" % unparse(st.test))
 
 
+# ------------------------------------------------------------------ C01.str / C01.node / C01.layer
+LATIN = {"latin-1", "latin1", "latin_1", "iso-8859-1", "iso8859-1", "l1"}
+
+
+def rule_str(ctx):
+    """strings are one byte per character in both directions: the writer turns a str into ord(c) per character (or a
+    latin-1 encode), the reader turns bytes into chr(b) per byte (or a latin-1 decode); any other charset on one side
+    (utf-8: two bytes for U+0080..U+00FF) makes the two sides disagree about what a string is"""
+    n = 0
+    for rel, cn in ((ENC, "WriteEncoder"), (DEC, "ReadDecoder")):
+        cls = ctx.repo.cls(rel, cn)
+        for name, fn in sorted(cls.methods.items()):
+            for c in ast.walk(fn):
+                if isinstance(c, ast.Call) and isinstance(c.func, ast.Attribute) and c.func.attr in ("encode", "decode"):
+                    cs = None
+                    if c.args and isinstance(c.args[0], ast.Constant) and isinstance(c.args[0].value, str):
+                        cs = c.args[0].value
+                    elif not c.args and not c.keywords:
+                        cs = "utf-8"      # the default
+                    else:
+                        continue
+                    # encoding a constant ASCII literal is charset independent
+                    if isinstance(c.func.value, ast.Constant) and isinstance(c.func.value.value, str) and all(ord(ch) < 128 for ch in c.func.value.value):
+                        continue
+                    n += 1
+                    ctx.check("C01.str", cs.lower() in LATIN, where(rel, "%s.%s" % (cn, name), c.lineno), c,
+                              "a string is converted with charset %r here while the other direction maps one character to one byte (ord / chr / latin-1): characters U+0080..U+00FF do not survive the round trip" % cs,
+                              "latin-1: one byte per character")
+    es = ctx.repo.method(ENC, "WriteEncoder", "encodeString")
+    per_char = any(isinstance(c, ast.Call) and isinstance(c.func, ast.Name) and c.func.id == "ord" for c in ast.walk(es)) or \
+        any(isinstance(c, ast.Call) and isinstance(c.func, ast.Attribute) and c.func.attr == "encode" and c.args and isinstance(c.args[0], ast.Constant) and str(c.args[0].value).lower() in LATIN for c in ast.walk(es))
+    ctx.check("C01.str", per_char, where(ENC, "WriteEncoder.encodeString", es.lineno), "str -> one byte per character", "encodeString must map each character of a str to one byte (ord(c) / latin-1)", "ord(c) per character")
+    ctx.units["C01.charset_sites"] = n
+
+
+def rule_node(ctx):
+    """the tree node keeps what it is given: attributes (also empty-string values), children and data reach the fields
+    unchanged - by abstract execution of ProtocolTreeNode.__init__ on symbolic arguments, one run per cell"""
+    from ..absint import Interp, enumerate_cells, Budget, _Raise, show
+    repo = ctx.repo
+    cls = repo.cls(PTN, "ProtocolTreeNode")
+    init = cls.methods["__init__"]
+    w = where(PTN, "ProtocolTreeNode.__init__", init.lineno)
+    A1, A2 = ("atom", ("A", (), "k1")), ("atom", ("A", (), "k2"))
+
+    def run(cell, domains):
+        from ..absint import Obj
+        it = Interp(repo, cell, domains, hooks={})
+        o = Obj(cls)
+        res = {"raised": None}
+        try:
+            it.call_function(init, cls, ("obj", o), [("c", "tag"), ("dict", {"k1": A1, "k2": A2}), ("list", []), ("ext", "databytes", [])], {}, depth=0)
+        except _Raise as r:
+            res["raised"] = r.text
+        res["fields"] = dict(o.fields)
+        return res, it
+    try:
+        cells = enumerate_cells(run, {}, max_cells=200)
+    except Budget:
+        ctx.undecided("C01.node", w, init, "budget exceeded")
+        return
+    bad = []
+    for cell, r in cells:
+        if r["raised"]:
+            if "databytes" in r["raised"] or "type(data)" in r["raised"]:
+                continue
+            bad.append("raises %s" % r["raised"][:60])
+            continue
+        at = r["fields"].get("attributes")
+        if at and at[0] == "dict" and any(isinstance(k_, tuple) for k_ in at[1]):
+            ctx.undecided("C01.node", w, init, "the attribute dictionary is built in a way the interpreter does not follow")
+            return
+        if not (at and at[0] == "dict" and at[1].get("k1") == A1 and at[1].get("k2") == A2 and len(at[1]) == 2):
+            lab = ", ".join("%s=%s" % (k[2] if k[0] == "A" else k[1], v) for k, v in cell.items())
+            bad.append("attributes become %s%s" % (show(at)[:60] if at else None, " when " + lab if lab else ""))
+        if r["fields"].get("tag") != ("c", "tag"):
+            bad.append("tag altered")
+        d = r["fields"].get("data")
+        if not (d and d[0] == "ext" and d[1] == "databytes"):
+            bad.append("data altered")
+    ctx.check("C01.node", not bad, w, "ProtocolTreeNode(tag, attributes, children, data) keeps its arguments (%d cell(s))" % len(cells),
+              "; ".join(sorted(set(bad))[:2]) + ": an attribute whose value is empty (or otherwise falsy) is dropped when a stanza is built or decoded", "fields hold the arguments unchanged")
+
+
+def rule_layer(ctx):
+    """the coder layer writes, for every stanza, the bytes of THAT stanza: on every path of send the value written is
+    protocolTreeNodeToBytes(<the parameter>), not bytes kept from an earlier call"""
+    from ..terms import PathEval, all_path_results, show
+    repo = ctx.repo
+    cls = repo.cls(LAY, "YowCoderLayer")
+    fn = cls.methods["send"]
+    w = where(LAY, "YowCoderLayer.send", fn.lineno)
+    P = params_of(fn)[0]
+    pe = PathEval(fn, Evaluator(repo, cls.module, cls))
+    res = [r for r in all_path_results(CFG(fn), pe) if r["terminal"] == "exit"]
+    bad, n = [], 0
+    for r in res:
+        wr = [e for e in r["events"] if e["func"] in ("write", "toLower") and e["recv_var"] == "self"]
+        if len(wr) != 1 or not wr[0]["args"]:
+            bad.append("a path writes %d times" % len(wr))
+            continue
+        n += 1
+        a = wr[0]["args"][0]
+        while isinstance(a, tuple) and a[0] == "call" and a[1] in ("bytearray", "bytes", "list") and a[3]:
+            a = a[3][0]
+        ok = isinstance(a, tuple) and a[0] == "call" and a[1] == "protocolTreeNodeToBytes" and a[3] and a[3][0] == ("param", P)
+        if not ok:
+            bad.append("a path writes %s" % show(a)[:70])
+    ctx.check("C01.layer", not bad and n > 0, w, "send writes protocolTreeNodeToBytes(%s) on every path" % P, "; ".join(sorted(set(bad))[:2]) + ": the frame on the wire is not the encoding of the stanza that was sent",
+              "%d path(s): the stanza's own encoding is written" % n)
+
+
 # ------------------------------------------------------------------ C01.dict
 def dictionary_lists(ctx):
     td = ctx.repo.cls(TOK, "TokenDictionary")
@@ -1303,6 +1418,10 @@ def run(ctx):
     ctx.rule("C01.dbl", "double-byte token arithmetic is inverse", floor=2)
     ctx.rule("C01.pack", "packing tables and the packed header are inverse", floor=5)
     ctx.rule("C01.unpack", "packed body: writer nibble layout / filler, reader abstractly executed per (kind, header byte)", floor=6)
+    ctx.rule("C01.str", "one byte per character in both directions (latin-1)", floor=2)
+    ctx.rule("C01.node", "ProtocolTreeNode keeps its constructor arguments", floor=1)
+    ctx.rule("C01.layer", "the coder layer writes the encoding of the stanza it was given", floor=1)
+    ctx.rule("C01.sent", "stanzas built by the library's own entities are well-formed for the codec (C09.codec adopted)", floor=40)
     ctx.rule("C01.count", "the node list header counts exactly the items written", floor=4)
     ctx.rule("C01.dict", "dictionary sizes / reserved entries", floor=4)
     ctx.rule("C01.eq", "tree equality compares every component, children in both directions with a fresh flag", floor=7)
@@ -1316,5 +1435,11 @@ def run(ctx):
     if tables:
         ctx.guarded("C01.unpack", rule_unpack, ctx, tables)
     ctx.guarded("C01.count", rule_count, ctx)
+    ctx.guarded("C01.str", rule_str, ctx)
+    ctx.guarded("C01.node", rule_node, ctx)
+    ctx.guarded("C01.layer", rule_layer, ctx)
     ctx.guarded("C01.dict", rule_dict, ctx)
     ctx.guarded("C01.eq", rule_eq, ctx)
+    # the stanzas the library itself builds are well-formed for the codec (C09.codec), adopted
+    from . import c09
+    ctx.adopt_from("C09", [(c09.rule_codec_sent_only, (ctx.repo,))], {"C09.codec": "C01.sent", "C09.ret": "C01.sent"})
